@@ -401,6 +401,15 @@ def apalache(spec, args, timeout=900):
     return m.group(1) if m else "unknown"
 
 
+def run_until_patient(cmd, done, deadline=20.0, settle=0.0, env=None):
+    """run_until, once more with three times the deadline when the first run hit it: a verdict must not come from a loaded
+    machine (a process that really never produces the output is still reported, after the second run)."""
+    r = run_until(cmd, done, deadline, settle, env)
+    if r[2]:
+        r = run_until(cmd, done, 3 * deadline, settle, env)
+    return r
+
+
 def run_until(cmd, done, deadline=20.0, settle=0.0, env=None):
     """Run a process that never exits by itself (the emulator binary) and collect its stdout until
     done(bytes) is true (plus `settle` seconds to see whether anything more arrives), the process exits,
